@@ -233,6 +233,51 @@ def run_composites(arg):
     return part.result()
 
 
+# ---- constants bound to reference parameters of dynamic templates (spawn) -------------------------------------------------
+def dynamic_cells():
+    def doc(decl_param, def_param, body, arg, kind="int"):
+        D = X.template("D", params=def_param, locations=[X.location("id5", "A"), X.location("id6", "B")], init="id5",
+                       transitions=[X.transition("id5", "id6", assign=body)])
+        T = X.template("T", locations=[X.location("id0", "L0"), X.location("id1", "L1")], init="id0",
+                       transitions=[X.transition("id0", "id1", assign="spawn D(%s)" % arg)])
+        return X.nta("const int c = 1; int m; int other; const int ca[2] = {1, 2}; int ma[2]; dynamic D(%s);" % decl_param, [D, T], "system T;")
+    writes = {"assign": "k = 5", "compound": "k += 1", "increment": "k++", "inline-if": "(other > 0 ? k : other) = 1"}
+    for wid, body in writes.items():
+        # declaration and definition agree: a constant must not reach the writing reference parameter
+        yield ("dynamic:ref-param-written:%s" % wid, "const ", doc("int &k", "int &k", body, "c"))
+        yield ("dynamic:ref-param-written:%s" % wid, "", doc("int &k", "int &k", body, "m"))
+        # declaration says const reference, definition drops the const and writes: the constant is written through the definition
+        yield ("dynamic:declared-const-defined-mutable:%s" % wid, "const ", doc("const int &k", "int &k", body, "c"))
+        # declaration mutable, definition const and reading only: harmless either way (twin)
+        yield ("dynamic:const-ref-param-written:%s" % wid, "const ", doc("const int &k", "const int &k", body, "c"))
+    yield ("dynamic:const-ref-param-read", "", doc("const int &k", "const int &k", "other = k", "c"))
+    yield ("dynamic:value-param-read", "", doc("int k", "int k", "other = k", "c"))
+    yield ("dynamic:ref-param-read", "", doc("int &k", "int &k", "other = k", "m"))
+
+
+def run_dynamic(_):
+    part = engine.Part()
+    w = engine.worker("fast")
+    cs = list(dynamic_cells())
+    res = X.run_docs(w, [c[2] for c in cs], want=["noinv"], batch=50)
+    for (cid, c, doc), r in zip(cs, res):
+        part.count()
+        rp = {"op": "xml", "buf": doc}
+        if engine.check_crash(part, PID, r, cid, rp):
+            continue
+        part.nontrivial_case(cid + "|" + c)
+        acc = X.accepted(r)
+        if c and acc:
+            part.outcome("const-write-accepted")
+            part.violation("const-write-accepted:" + cid, "%s: a constant reaches a reference parameter of a dynamic template that writes it" % cid, rp)
+        elif not c and not acc:
+            part.outcome("mutable-twin-rejected")
+            part.violation("twin-rejected:" + cid, "%s: rejected: %s" % (cid, sorted(set(e["msg"] for e in r.get("errors", [])))[:2]), rp)
+        else:
+            part.outcome("const-write-rejected" if c else "mutable-twin-accepted")
+    return part.result()
+
+
 def run_shard(arg):
     i, n = arg
     part = engine.Part()
@@ -282,6 +327,7 @@ def main():
         rep.merge(res)
     for res in engine.pmap(run_composites, [(i, n) for i in range(n)]):
         rep.merge(res)
+    rep.merge(run_dynamic(None))
     rep.extra["composite_cells"] = sum(1 for c in composite_cells() if c[1] != "decl")
     rep.assumptions = ["quantifier binders have no mutable twin (a write inside a quantified body is rejected for C11's reason)",
                        "small scope: the listed shapes and write forms"]
